@@ -28,7 +28,7 @@ check("C13", "model_checking",
 check("C14", "model_checking",
       "TLC explores spec/ModelObj.tla (every mutator built from one __setitem__ exactly as the code composes them: item/augmented "
       "assignment incl. zero values and repeated labels, += -= *= **= with dict/model/scalar operands, update, clear, refresh, copy, "
-      "constraint methods, enumerated forms) exhaustively to a depth bound for six pairs of classes covering all ten kinds, with "
+      "constraint methods, enumerated forms, set_mapping) exhaustively to a depth bound for six pairs of classes covering all ten kinds, with "
       "UpperBounds / MappingBijection / StoredCanonical / AncCovers as invariants and RefreshExact / AncNeverReused as action "
       "properties. Every transition of the 2-step graph and long simulated histories are replayed on the real classes with labels "
       "of mixed hashable types; spec/ModelObjTrace.tla validates each recorded step: stored function pinned, the C14 contract "
@@ -55,7 +55,8 @@ check("C12", "model_checking",
       "extension with the env-guarded C step trace (hook H2); spec/MetropolisTrace.tla validates EVERY logged visit: position and "
       "order, logged dE = exact energy change of the marshalled model in the spec state, Metropolis acceptance rule with the logged "
       "variate, final state/value, API results = kernel results under a verified index->label witness, marshalled model = caller's "
-      "model, each call made twice with identical traces and results, results <= initial value at temperature zero.",
+      "model, each call made twice with identical traces and results, results <= initial value at temperature zero. Thorough: the "
+      "repository's own annealer tests run under the same trace (a bounded prefix per kernel call) and are validated the same way.",
       "the distributional claim is reduced to step-level conformance plus the ASSUMPTION that PCG32 output is i.i.d. uniform; "
       "`below := u < exp(-dE/T)` is computed by the harness with the same libm; models <= 5 spins, degree <= 4",
       "TLA+ model of the Metropolis step checked by TLC; C-level step traces from the real kernels validated against it by TLC",
@@ -77,9 +78,10 @@ check("C02", "model_checking",
       "the relation holds; >= lam otherwise; weaker when warned unsatisfiable), fresh ancilla names, soundness of the 'cannot be "
       "satisfied' branches and linearity in lam for EVERY polynomial over two labels with small coefficients, every relation, log_trick "
       "and several kinds of bounds. Code: (i) EXHAUSTIVE - every polynomial of the TLC-emitted universe (spec/GenPoly.tla: 2 labels, "
-      "coefficients {-1,1,2}; thorough {-2,-1,1,2}) x six relations x log_trick through the real method, i.e. the design-level "
-      "universe run through the code; (ii) seeded scenarios of 1-3 constraints on one real PCBO (random and special-case-shaped "
-      "polynomials over labels of mixed types, dict / PUBO / PCBO arguments, bounds omitted / partial / exact / loose); "
+      "coefficients {-1,1,2}; thorough {-2,-1,1,2}; plus 3 labels: <= 3 terms of degree <= 2, thorough all 6561 with coefficients "
+      "-1/1) x six relations x log_trick through the real method, i.e. the design-level universe run through the code; (ii) seeded scenarios of 1-3 constraints on one real PCBO (random and special-case-shaped "
+      "polynomials over labels of mixed types, dict / PUBO / PCBO arguments, bounds omitted / partial / exact / loose; in some a copy "
+      "/ sum / product / clone of the model is given further constraints before the model's own record is observed); "
       "spec/CheckConstraints.tla (TLC) evaluates the contract on the implementation's penalty for every assignment of variables and "
       "ancillas, is_solution_valid against the constraints passed, ancilla freshness across the scenario, num_ancillas, argument immutability.",
       "bounded: <= 3 problem labels, |coef| <= 3, penalties with <= 9 ancillas for the truth-table clauses; bounds supplied are true "
@@ -108,7 +110,8 @@ check("C01", "model_checking",
       "Code: (a) spec/CheckReduce.tla judges the forms returned by the real to_qubo/to_quso/to_pubo(d)/to_puso(d) of PUBO, PCBO, PUSO, "
       "PCSO (penalty None / constant / callable, pairs hints incl. unknown labels, labels of mixed types) on EVERY assignment of "
       "variables and ancillas: D(s) >= M(convert(s)) when the penalty dominates the boolean-form coefficients, some ancilla extension "
-      "with D = M, degree, labels via the mapping, result type, convert_solution = restriction; (b) hook H1 certificates of larger "
+      "with D = M, degree, labels via the mapping, result type, convert_solution = restriction (handed over as dict / list / tuple, spin "
+      "flag given or detected); models are fresh or carry a history (earlier conversion, set_mapping, edit + refresh); (b) hook H1 certificates of larger "
       "models (up to ~25 variables incl. ancillas) are validated step by step by spec/ReduceTrace.tla against the step machine.",
       "truth tables for forms with <= 10 (11 thorough) variables; larger forms only via certificates + ReduceLocal; small integer / "
       "half-integer coefficients; refreshed models as the statement requires; trusted: TLC, record encoder, hook H1 (add-only)",
@@ -123,7 +126,11 @@ check("C05", "model_checking",
       "histories are replayed on the real classes; spec/ModelObjTrace.tla validates each step: stored function pinned (= polynomial "
       "arithmetic), raw keys canonical (sorted-duplicate-free keys, no zero coefficient), class of the result, operands and every other "
       "object unchanged, KeyError for products of quadratic kinds whose value exceeds degree 2, and value / pubo_value / qubo_value / "
-      "puso_value / quso_value for dict, list and tuple assignments against direct evaluation.",
+      "puso_value / quso_value for dict, list and tuple assignments (also the smallest legal assignment) against direct evaluation. "
+      "Operand-pair tier: for every ordered pair of the ten classes of one domain and every pair of polynomials of the universe "
+      "emitted from spec/GenPoly.tla (3 labels, coefficients -1/1, <= 2 terms), a+b, a-b, a*b are run on the real classes and judged by "
+      "spec/CheckBin.tla (value, KeyError exactly where a quadratic left class cannot store the result, class, canonical storage, "
+      "operands unchanged, a+b == b+a).",
       "bounded: <= 3 labels, coefficients in {-1,0,1}, histories of <= 3 steps exhaustively and <= 10 by simulation; result class "
       "judged only when the operands do not have two different model classes; trusted: TLC, harness projection",
       "TLA+ laws + state machine checked by TLC; spec behaviours replayed into the classes; trace validation by TLC", "DESIGN 3 C05")
@@ -143,7 +150,8 @@ check("C04", "exploration",
       "labelled types, four Matrix types); spec/CheckPure.tla (TLC) canonicalises the returned terms itself (FromRaw) and compares them "
       "with the specification's conversion of the source: ToSpinNum / ToBool (laws proved in PolyLaws), Relabel by the mapping for "
       "to_pubo/puso/qubo/quso/enumerated, value after convert_solution for EVERY assignment as dict / list / tuple in boolean and spin "
-      "form, exports Q, h/J, qubo_to_matrix (symmetric or not), matrix_to_qubo up to the constant, and the documented result types.",
+      "form, exports Q, h/J, qubo_to_matrix (symmetric or not), matrix_to_qubo up to the constant, and the documented result types; "
+      "labelled models also after set_mapping, chosen before or after the last labels arrive.",
       "seeded exploration (3000 quick / 20000 thorough cases), models with <= 4 variables and degree <= 3, integer / half-integer coefficients (exact arithmetic); trusted: TLC, the record encoder; result types judged only where the docstrings fix them", "real calls recorded; pinned results compared by TLC with the "
       "TLA+ definition of the conversion", "DESIGN 3 C04")
 check("C07", "exploration",
@@ -158,7 +166,8 @@ check("C09", "model_checking",
       "constant and empty models, raw dicts, validity predicates from a named family, all_solutions both ways); spec/CheckSolve.tla "
       "(TLC) has one state per (call, assignment): no valid assignment lies below the objective, the reported solutions are valid "
       "minimisers over exactly the model's variables, with all_solutions every valid minimiser is reported exactly once, objective None "
-      "iff nothing is valid, constant models, argument unchanged.",
+      "iff nothing is valid, constant models, argument unchanged (terms and bookkeeping, also for stale model objects), and a second "
+      "identical call after the caller scribbled into the first result returns the same.",
       "exhaustive over the TLC-emitted universe of spec/GenPoly.tla (256 / 625 polynomials x 4 functions x 2 kinds x all_solutions x 3 "
       "predicates) plus seeded models with <= 4 variables (every assignment enumerated by TLC), 2500 / 15000 calls; the constant-model sentence "
       "takes precedence over the None sentence where they compete; trusted: TLC, record encoder",
